@@ -5,6 +5,7 @@ import (
 	"flag"
 	"fmt"
 	"os"
+	"strings"
 	"time"
 
 	"github.com/KevoDB/kevo/pkg/transaction"
@@ -21,7 +22,7 @@ func txnRegistryCmd(args []string) int {
 	fs := flag.NewFlagSet("txn-registry", flag.ExitOnError)
 	dir := fs.String("dir", "", "database directory")
 	out := fs.String("out", "", "trace (ndjson)")
-	scen := fs.String("scenario", "idle", "idle | ttl | conn | shutdown | timeout-rw | timeout-ro")
+	scen := fs.String("scenario", "idle", "idle | ttl | conn | shutdown | timeout-rw | timeout-ro | deadline-rw | deadline-ro | cancel-rw | cancel-ro")
 	fs.Parse(args)
 	stderr := os.Stderr
 	muteStdout()
@@ -104,6 +105,43 @@ func txnRegistryCmd(args []string) int {
 		if _, still := reg.Get(id); still {
 			log.ev(map[string]interface{}{"e": "error", "msg": "the abandoned transaction is still registered after " + *scen + " cleanup"})
 		}
+		probe()
+	case "deadline-rw", "deadline-ro", "cancel-rw", "cancel-ro":
+		// the caller's OWN context ends (client deadline / cancelled call) while its begin waits behind another transaction;
+		// the lock request stays in flight and is granted later: that transaction has to be rolled back as well
+		tr.register("c1")
+		log.ev(map[string]interface{}{"e": "breq", "c": "c1", "mode": "rw"})
+		tx1, err := eng.BeginTransaction(false)
+		if err != nil {
+			log.ev(map[string]interface{}{"e": "error", "msg": err.Error()})
+			break
+		}
+		mode := "rw"
+		if strings.HasSuffix(*scen, "-ro") {
+			mode = "ro"
+		}
+		var cctx context.Context
+		var cancel context.CancelFunc
+		if strings.HasPrefix(*scen, "deadline") {
+			cctx, cancel = context.WithTimeout(ctxOf("conn2"), 150*time.Millisecond)
+		} else {
+			cctx, cancel = context.WithCancel(ctxOf("conn2"))
+			go func() { time.Sleep(150 * time.Millisecond); cancel() }()
+		}
+		log.ev(map[string]interface{}{"e": "breq", "c": "c2", "mode": mode})
+		_, berr := reg.Begin(cctx, eng, mode == "ro")
+		cancel()
+		if berr == nil {
+			log.ev(map[string]interface{}{"e": "error", "msg": "registry begin returned a transaction while the write lock was held"})
+			break
+		}
+		log.ev(map[string]interface{}{"e": "btimeout", "c": "c2"})
+		time.Sleep(100 * time.Millisecond) // the caller is gone for good before the holder finishes
+		log.ev(map[string]interface{}{"e": "cstart", "c": "c1"})
+		err = tx1.Commit()
+		log.ev(map[string]interface{}{"e": "cret", "c": "c1", "ok": err == nil})
+		tr.unregister()
+		time.Sleep(300 * time.Millisecond)
 		probe()
 	case "timeout-rw", "timeout-ro":
 		// c1 holds the write lock past the registry's 10 s begin time-out
